@@ -61,13 +61,21 @@ type layer struct {
 }
 
 type lockedBuf struct {
-	mu sync.Mutex
-	b  bytes.Buffer
+	mu   sync.Mutex
+	b    bytes.Buffer
+	fail bool // the sink is broken (closed pipe, full disk): every write fails
+	hits *int
 }
 
 func (l *lockedBuf) Write(p []byte) (int, error) {
 	l.mu.Lock()
 	defer l.mu.Unlock()
+	if l.fail {
+		if l.hits != nil {
+			*l.hits++
+		}
+		return 0, io.ErrClosedPipe
+	}
 	return l.b.Write(p)
 }
 
@@ -164,6 +172,7 @@ func c20prop(r *simkit.Run) {
 		}
 	}
 	var h http.Handler = innermost
+	sinkFaults := 0
 	layers := make([]*layer, depth)
 	bufferAbove := false
 	for i, k := range names {
@@ -176,7 +185,8 @@ func c20prop(r *simkit.Run) {
 			must(err)
 			h = s
 		case "trace":
-			t, err := trace.New(h, &lockedBuf{}, trace.RequestHeaders("Src"), trace.ResponseHeaders("X-Multi"))
+			// the trace output is the caller's writer; a broken one is a fault the tracer must absorb silently
+			t, err := trace.New(h, &lockedBuf{fail: rapid.IntRange(0, 3).Draw(rt, "trace-sink-broken") == 0, hits: &sinkFaults}, trace.RequestHeaders("Src"), trace.ResponseHeaders("X-Multi"))
 			must(err)
 			h = t
 		case "connlimit":
@@ -442,6 +452,9 @@ func c20prop(r *simkit.Run) {
 	}
 	if bufferAbove {
 		r.Probe("buffer-in-stack")
+	}
+	for i := 0; i < sinkFaults; i++ {
+		r.Fault("trace-sink-write-error")
 	}
 	r.Sample(func() any {
 		return map[string]any{"stack_outermost_first": reverse(names), "intervening_layer": intervene, "probe_status": probe.status, "hijack": probe.hijack, "client_status": rec.Status, "client_body_bytes": rec.Body.Len(), "flushes": rec.Flushes}
